@@ -9,6 +9,9 @@ Next == k < Len(Cases) /\ k' = k + 1
 GlobalNotLost(c) == c.lost = 0 /\ c.wrong = 0
 NoFailure(c)     == c.errors = 0
 AtMostOnce(c)    == c.maxticks <= 1
-Why(c) == IF ~GlobalNotLost(c) THEN "GlobalNotLost" ELSE IF ~NoFailure(c) THEN "UnexpectedError" ELSE "AtMostOnce"
-Inv == k = 0 \/ (GlobalNotLost(Cases[k]) /\ NoFailure(Cases[k]) /\ AtMostOnce(Cases[k])) \/ PrintT(<<"BAD", k, Why(Cases[k])>>)
+NoDataRace(c)    == c.races = 0
+Why(c) == IF ~GlobalNotLost(c) THEN "GlobalNotLost" ELSE IF ~NoFailure(c) THEN "UnexpectedError"
+          ELSE IF ~NoDataRace(c) THEN "NoDataRace" ELSE "AtMostOnce"
+Inv == k = 0 \/ (GlobalNotLost(Cases[k]) /\ NoFailure(Cases[k]) /\ AtMostOnce(Cases[k]) /\ NoDataRace(Cases[k]))
+       \/ PrintT(<<"BAD", k, Why(Cases[k])>>)
 =============================================================================
